@@ -1,6 +1,6 @@
 (* C05: erasure of the work counters, termination with linear fuel, work and
    output bounds for Model/MarshalCost.v.  No hypothesis on signature or data. *)
-From Tx Require Import Lib.Base Model.PyVal Model.Marshal Model.Message Model.MarshalCost Spec.WorkBounds Proofs.SigProofs.
+From Tx Require Import Lib.Base Model.PyVal Model.Marshal Model.Message Model.FdFraming Model.MarshalCost Spec.WorkBounds Proofs.SigProofs.
 Local Open Scope N_scope.
 
 (* ===========================================================================
@@ -901,6 +901,30 @@ Proof. reflexivity. Qed.
 (* ===========================================================================
    9. parseMessage                                                              *)
 
+(* the descriptor list handed to the body decoder (repair D60): a prefix of the one received *)
+Lemma bound_of_no_fuel v e : bound_of v = Err e -> e <> EFuel.
+Proof. destruct v; cbn [bound_of]; try congruence. destruct v; congruence. Qed.
+
+Lemma body_fds_no_fuel attrs fds e : body_fds false attrs fds = Err e -> e <> EFuel.
+Proof.
+  unfold body_fds. destruct fds as [l|]; [|discriminate].
+  destruct (get_attr AUnixFds attrs) as [v|]; [|discriminate].
+  destruct (bound_of v) as [b|e'] eqn:E; cbn [bind]; [discriminate|].
+  intros H; injection H as <-. eapply bound_of_no_fuel; exact E.
+Qed.
+
+Lemma body_fds_atomic attrs fds bf : fds_atomic fds -> body_fds false attrs fds = Ok bf -> fds_atomic bf.
+Proof.
+  unfold body_fds, fds_atomic. intros Hfd. destruct fds as [l|].
+  2:{ intros H; injection H as <-. discriminate. }
+  specialize (Hfd l eq_refl).
+  destruct (get_attr AUnixFds attrs) as [v|].
+  2:{ intros H; injection H as <-. intros l' H'; injection H' as <-. constructor. }
+  destruct (bound_of v) as [b|e']; cbn [bind]; [|discriminate].
+  intros H; injection H as <-. intros l' H'; injection H' as <-.
+  destruct b as [z|]; cbn [slice_to]; [apply Forall_firstn'|]; exact Hfd.
+Qed.
+
 Theorem parse_erase raw fds : fst (parse_c raw fds) = parse_message_v2 raw fds.
 Proof.
   unfold parse_c, parse_message_v2, parse_gen. destruct raw as [|b0 raw']; [reflexivity|].
@@ -912,8 +936,9 @@ Proof.
   destruct (negb _); [reflexivity|].
   destruct (set_fields fields []) as [attrs|e]; cbn [bind fst]; [|reflexivity].
   destruct (body_sig attrs) as [[sig|]|e]; cbn [bind fst]; try reflexivity.
-  rewrite <- (erase_unmarshal (body_of nheader raw) le fds).
-  destruct (mc_unmarshal false (body_of nheader raw) le fds (lin_fuel sig (body_of nheader raw)) sig 0) as [rb c3].
+  destruct (body_fds false attrs fds) as [bf|e]; cbn [bind fst]; [|reflexivity].
+  rewrite <- (erase_unmarshal (body_of nheader raw) le bf).
+  destruct (mc_unmarshal false (body_of nheader raw) le bf (lin_fuel sig (body_of nheader raw)) sig 0) as [rb c3].
   cbn [fst]. destruct rb as [[nb body]|e]; reflexivity.
 Qed.
 
@@ -944,8 +969,10 @@ Proof.
   2:{ intros H; injection H as ->. eapply set_fields_no_fuel; [exact Es|reflexivity]. }
   destruct (body_sig attrs) as [[sig|]|e] eqn:Eb; cbn [bind]; try discriminate.
   2:{ intros H; injection H as ->. eapply body_sig_no_fuel; [exact Eb|reflexivity]. }
-  pose proof (unmarshal_terminates sig (body_of nheader raw) 0 le fds) as H2.
-  destruct (m_unmarshal (lin_fuel sig (body_of nheader raw)) sig (body_of nheader raw) 0 le fds) as [[nb body]|e]; cbn [bind].
+  destruct (body_fds false attrs fds) as [bf|e] eqn:Ef; cbn [bind].
+  2:{ intros H; injection H as ->. eapply body_fds_no_fuel; [exact Ef|reflexivity]. }
+  pose proof (unmarshal_terminates sig (body_of nheader raw) 0 le bf) as H2.
+  destruct (m_unmarshal (lin_fuel sig (body_of nheader raw)) sig (body_of nheader raw) 0 le bf) as [[nb body]|e]; cbn [bind].
   - discriminate.
   - intros H; injection H as ->. apply H2; reflexivity.
 Qed.
@@ -1037,10 +1064,13 @@ Proof.
   2:{ cbn [fst snd calls scan cadd]. repeat split; try lia.
       intros m H; injection H as <-. unfold msg_of, parsed_size. lia. }
   apply body_sig_short in Eb. specialize (Hbl nheader).
-  pose proof (unmarshal_work (body_of nheader raw) le fds (lin_fuel sig (body_of nheader raw)) sig 0
+  destruct (body_fds false attrs fds) as [bf|e] eqn:Ef.
+  2:{ cbn [fst snd calls scan cadd]. repeat split; try lia. discriminate. }
+  pose proof (body_fds_atomic _ _ _ Hfd Ef) as Hfd'.
+  pose proof (unmarshal_work (body_of nheader raw) le bf (lin_fuel sig (body_of nheader raw)) sig 0
                              (wf_skipn _ _ Hwf)) as [A3 B3].
   assert (Hsc : (sig_scale sig <= 1020)%nat) by (unfold sig_scale; lia).
-  destruct (mc_unmarshal false (body_of nheader raw) le fds (lin_fuel sig (body_of nheader raw)) sig 0) as [rb c3] eqn:E3.
+  destruct (mc_unmarshal false (body_of nheader raw) le bf (lin_fuel sig (body_of nheader raw)) sig 0) as [rb c3] eqn:E3.
   cbn [snd] in A3, B3. unfold calls_bound, scan_bound in A3, B3.
   pose proof (scale_le _ (2 * length (body_of nheader raw)) Hsc) as S1.
   pose proof (scale_le _ (calls c3) Hsc) as S2.
@@ -1048,7 +1078,7 @@ Proof.
   destruct rb as [[nb body]|e]; cbn [fst snd calls scan cadd].
   - repeat split; try lia.
     intros m H; injection H as <-.
-    pose proof (size_unmarshal _ le fds Hfd _ _ _ _ _ _ E3) as Hsz3.
+    pose proof (size_unmarshal _ le bf Hfd' _ _ _ _ _ _ E3) as Hsz3.
     unfold msg_of, parsed_size. lia.
   - repeat split; try lia. discriminate.
 Qed.
@@ -1079,3 +1109,27 @@ Proof. unfold wf_bytes, ex_msg. repeat constructor. Qed.
 
 Lemma fds_atomic_nil : fds_atomic (Some []).
 Proof. intros l H; injection H as <-. constructor. Qed.
+
+(* hostile UNIX_FDS header field (code 9) carried as a STRING: the slice oobFDs[:'x'] raises;
+   carried as a negative INT32 it follows Python slice semantics (here [7;8][:-1] = [7]) *)
+Definition fds_str_msg : bytes :=
+  [108; 2; 0; 1;  1; 0; 0; 0;  1; 0; 0; 0;  26; 0; 0; 0;
+   5; 1; 117; 0;  7; 0; 0; 0;
+   8; 1; 103; 0;  1; 121; 0;  0;
+   9; 1; 115; 0;  1; 0; 0; 0;  120; 0;  0; 0; 0; 0; 0; 0;
+   5].
+
+Definition fds_neg_msg : bytes :=
+  [108; 2; 0; 1;  8; 0; 0; 0;  1; 0; 0; 0;  24; 0; 0; 0;
+   5; 1; 117; 0;  7; 0; 0; 0;
+   8; 1; 103; 0;  2; 104; 104; 0;
+   9; 1; 105; 0;  255; 255; 255; 255;
+   0; 0; 0; 0;  1; 0; 0; 0].
+
+Lemma hostile_unix_fds :
+  parse_message_v2 fds_str_msg (Some [PInt 7]) = Err EType /\
+  parse_message_v2 fds_neg_msg (Some [PInt 7; PInt 8]) =
+  Ok (2, 1%Z, true, true,
+      [(AReplySerial, PInt 7); (ASignature, PStr [104; 104]); (AUnixFds, PInt (-1))],
+      Some [PInt 7; PNone]).
+Proof. split; vm_compute; reflexivity. Qed.
